@@ -225,6 +225,54 @@ func registerIntrinsics(m *Machine) {
 		return nil
 	}
 
+	// ---- sync/atomic: plain operations (the engine is sequentially consistent) ----
+	for _, ty := range []string{"Int32", "Int64", "Uint32", "Uint64", "Uintptr"} {
+		ty := ty
+		in["sync/atomic.Load"+ty] = func(m *Machine, fr *frame, a []value) value {
+			p := a[0].(*value)
+			if p == nil {
+				panic(rtPanic("invalid memory address or nil pointer dereference"))
+			}
+			return *p
+		}
+		in["sync/atomic.Store"+ty] = func(m *Machine, fr *frame, a []value) value {
+			m.store(a[0].(*value), a[1])
+			return nil
+		}
+		in["sync/atomic.Add"+ty] = func(m *Machine, fr *frame, a []value) value {
+			p := a[0].(*value)
+			nv := m.T.Bin(OpAdd, (*p).(*Term), a[1].(*Term))
+			m.store(p, nv)
+			return nv
+		}
+		in["sync/atomic.Swap"+ty] = func(m *Machine, fr *frame, a []value) value {
+			p := a[0].(*value)
+			old := *p
+			m.store(p, a[1])
+			return old
+		}
+		in["sync/atomic.CompareAndSwap"+ty] = func(m *Machine, fr *frame, a []value) value {
+			p := a[0].(*value)
+			if m.decide(m.T.Eq((*p).(*Term), a[1].(*Term))) {
+				m.store(p, a[2])
+				return m.T.True
+			}
+			return m.T.False
+		}
+	}
+	in["sync/atomic.LoadPointer"] = func(m *Machine, fr *frame, a []value) value { return *(a[0].(*value)) }
+	in["sync/atomic.StorePointer"] = func(m *Machine, fr *frame, a []value) value {
+		m.store(a[0].(*value), a[1])
+		return nil
+	}
+	in["(*sync/atomic.Value).Load"] = func(m *Machine, fr *frame, a []value) value {
+		return (*a[0].(*value)).(structure)[0]
+	}
+	in["(*sync/atomic.Value).Store"] = func(m *Machine, fr *frame, a []value) value {
+		m.store(&(*a[0].(*value)).(structure)[0], a[1])
+		return nil
+	}
+
 	// ---- crypto/sha256: native on concrete input, an uninterpreted function otherwise ----
 	in["crypto/sha256.Sum256"] = func(m *Machine, fr *frame, a []value) value {
 		data := a[0].([]value)
